@@ -553,6 +553,10 @@ def r3_routing(rep, src, model, header_e, trailer_e, alpha):
                     # the max_blocks early return: not part of the unrestricted parse
                     if 'max_blocks' in norm(f.node):
                         continue
+                undecided = [c_ for c_ in t.get('forks', ()) if 'max_blocks' not in c_]
+                if (warns or (want_store is not None and stores != [want_store])) and undecided:
+                    raise AnalysisError('%s: whether the line %r takes the branch that %s depends on `%s`, which the transition model does not decide' % (
+                        f.site, wit, 'reports "%s"' % warns[0][1] if warns else 'stores it in %s' % (stores or 'nothing'), undecided[-1]))
                 if warns:
                     bad = 'the line %r takes a branch that reports "%s"' % (wit, warns[0][1])
                 elif want_store is not None and stores != [want_store]:
@@ -763,6 +767,6 @@ def check(src, rep, tier):
         header_e = strlang.TBuilder(alpha, [], lambda p: slots[p], {}).lang(lines[0][1])
         r3_routing(r, src, model, header_e, te, alpha)
     if te is not None:
-        rep.guard('C04.R3', routing)
+        soft.guard('C04.R3', routing)
     from . import common as _common_flags
     rep.guard('C04.R1', _common_flags.check_re_positional_flags, src, 'C04.R1', 'changelog', 'a heading with more key=value items than that exposes the rest as part of the last value')
